@@ -62,26 +62,26 @@ StepOf(x) ==
     [] x.e = "SAddBase" ->
          IF ~CanAddBase(st, x.d, x.r, x.b) THEN R(HarnessErr("add-base not enabled"), st)
          ELSE IF x.fault # 0 THEN R(FaultFail(x), st)
-         ELSE IF x.memfail \/ x.rc = RC_MALLOC THEN
+         ELSE IF x.rc = RC_MALLOC THEN
               R(PreCheck(x.prer, x.r) \o PreCheck(x.preb, x.b) \o OomFails(x)
                 \o FailIf(x.postr # x.prer \/ x.postb # x.preb, "C12", "a failed resolution modified a read-only operand"), st)
          ELSE LET ro == x.postr = x.prer /\ x.postb = x.preb
                   rec == IF x.rc = 0 THEN [e |-> "AddBase", r |-> x.prer, b |-> x.preb, opt |-> x.opt, rc |-> x.rc, t |-> x.out, text |-> x.text, ro |-> ro]
                                      ELSE [e |-> "AddBase", r |-> x.prer, b |-> x.preb, opt |-> x.opt, rc |-> x.rc, ro |-> ro] IN
-              R(PreCheck(x.prer, x.r) \o PreCheck(x.preb, x.b) \o V(rec)
+              R(PreCheck(x.prer, x.r) \o PreCheck(x.preb, x.b) \o OomFails(x) \o V(rec)      \* (a reported success is judged as one, also after a failed request)
                 ,
                 \* (a target that owns copies of its text is as good as one that shares its operands' ranges: the machine follows the flag)
                 IF x.rc # 0 THEN st ELSE IF x.out.own = 1 THEN Put(st, x.d, ValOf(x.out), TRUE, {}) ELSE DoAddBaseTo(st, x.d, x.r, x.b, ValOf(x.out)))
     [] x.e = "SRemoveBase" ->
          IF ~CanRemoveBase(st, x.d, x.s, x.b) THEN R(HarnessErr("remove-base not enabled"), st)
          ELSE IF x.fault # 0 THEN R(FaultFail(x), st)
-         ELSE IF x.memfail \/ x.rc = RC_MALLOC THEN
+         ELSE IF x.rc = RC_MALLOC THEN
               R(PreCheck(x.pres, x.s) \o PreCheck(x.preb, x.b) \o OomFails(x)
                 \o FailIf(x.postr # x.pres \/ x.postb # x.preb, "C12", "a failed reference creation modified a read-only operand"), st)
          ELSE LET ro == x.postr = x.pres /\ x.postb = x.preb
                   rec == IF x.rc = 0 THEN [e |-> "RemoveBase", s |-> x.pres, b |-> x.preb, mode |-> x.mode, rc |-> x.rc, ref |-> x.out, text |-> x.text, ro |-> ro, leak |-> 0, backrc |-> 1]
                                      ELSE [e |-> "RemoveBase", s |-> x.pres, b |-> x.preb, mode |-> x.mode, rc |-> x.rc, ro |-> ro] IN
-              R(PreCheck(x.pres, x.s) \o PreCheck(x.preb, x.b) \o V(rec),
+              R(PreCheck(x.pres, x.s) \o PreCheck(x.preb, x.b) \o OomFails(x) \o V(rec),
                 IF x.rc # 0 THEN st ELSE IF x.out.own = 1 THEN Put(st, x.d, ValOf(x.out), TRUE, {}) ELSE DoRemoveBaseTo(st, x.d, x.s, x.b, ValOf(x.out)))
     [] x.e = "SFree" -> IF CanFree(st, x.s) THEN R(FaultFail(x), DoFree(st, x.s)) ELSE R(HarnessErr("free of an empty slot"), st)
     [] x.e = "SScribble" -> IF CanScribble(st, x.i) THEN R(<<>>, DoScribble(st, x.i)) ELSE R(HarnessErr("scribble of a dead buffer"), st)
